@@ -9,6 +9,5 @@ Record lcase := { l_cos : nat; l_ops : list op; l_impl : list obs }.
 Definition judge (c : lcase) : verdict :=
   {| v_corr := list_eqb obs_eqb (run_C25 (l_cos c) (l_ops c)) (l_impl c);
      v_prop := ok_C25 (l_cos c) (l_ops c) (l_impl c);
-     v_tags := (if defect_C25_values_leaked_on_drop (l_cos c) (l_ops c) then ["values_leaked_on_drop"] else [])
-               ++ (if wf_C25 (l_cos c) (l_ops c) then [] else ["malformed"]);
+     v_tags := if wf_C25 (l_cos c) (l_ops c) then [] else ["malformed"];
      v_note := "" |}.
